@@ -1,8 +1,9 @@
 /* C19 -- ovnisort.c: the functions that walk a region of the stream buffer event by event
  * (find_min_clock, count_events, index_events, write_events).  BOUNDED stand-in: the region
  * holds 1..3 whole non-jumbo events (12..28 bytes each), i.e. events that stream_step
- * accepted; the region object has exactly the sum of their sizes, with arbitrary content
- * otherwise.  (Jumbo events are outside the bound: CBMC checks the 4-byte read of
+ * accepted.  The region is the LAST g_total bytes of an 84-byte object (a symbolic-size object
+ * of <= 84 bytes exhausts the solver's memory: measured), so that any read past the end of
+ * the region is outside the object; content arbitrary otherwise.  (Jumbo events are outside the bound: CBMC checks the 4-byte read of
  * payload.jumbo.size as a 16-byte access, see c19_stream.c.) */
 #include "prelude.h"
 #include "ovnisort.c"      /* the real /repo/src/emu/ovnisort.c */
@@ -13,7 +14,9 @@
 #define EVSZ(fl) (12L + NORMAL_PSIZE(fl))
 int g_n; long g_s1, g_s2, g_s3, g_total;
 /* REGION_WF: n in 1..3, event i starts where event i-1 ends, no jumbo flag, sizes sum to total */
-#define REGION_SHAPE(buf) (g_n >= 1 && g_n <= 3 && g_total >= 12 && g_total <= 84 && __CPROVER_is_fresh(buf, (size_t) g_total))
+uint8_t *g_base;
+#define REGION_SHAPE(buf) (g_n >= 1 && g_n <= 3 && g_total >= 12 && g_total <= 84 && __CPROVER_is_fresh(g_base, 84) && \
+	__CPROVER_pointer_equals(buf, g_base + (84 - g_total)))
 #define REGION_VALS(buf) ( \
 	!((buf)[0] & OVNI_EV_JUMBO) && g_s1 == EVSZ((buf)[0]) && \
 	(g_n < 2 ? g_s2 == 0 : (g_total >= g_s1 + 12 && !((buf)[g_s1] & OVNI_EV_JUMBO) && g_s2 == EVSZ((buf)[g_s1]))) && \
